@@ -36,6 +36,7 @@ def dispatch (line : String) : Verdict :=
   | "C06" :: "hand" :: args => handVerdict "C06" ("hand" :: args) r
   | "C06" :: args => c06 args r
   | "C07" :: "st" :: args => c06 ("st" :: args) r
+  | "C07" :: "tcps" :: args => c06 ("tcps" :: args) r
   | "C07" :: args => c07 args r
   | "C12" :: args => c12 args r
   | "C15" :: "dec" :: args => c16 ("dec" :: args) r
